@@ -755,7 +755,7 @@ theorem map_sb_some {o : Option Bytes} {tail : Option FV} (h : o.map (fun b => s
   | some b => injection h with h; exact ⟨b, h.symm⟩
 
 def WireTail : TK → Bool
-  | .names | .b64Opt | .tsigOther => false
+  | .names | .b64Opt | .tsigOther | .gateway _ _ | .apl | .wks => false
   | _ => true
 
 theorem tail_encodable (env : PEnv) (vals : List FV) (tk : TK) (toks : List Tok) (tail : Option FV)
@@ -765,6 +765,9 @@ theorem tail_encodable (env : PEnv) (vals : List FV) (tk : TK) (toks : List Tok)
   | names => cases hk
   | b64Opt => cases hk
   | tsigOther => cases hk
+  | gateway _ _ => cases hk
+  | apl => cases hk
+  | wks => cases hk
   | none =>
     simp only [reduceCtorEq, if_false, parseTail] at h
     split at h
